@@ -83,9 +83,9 @@ class Ctx:
             self.busy.add(k)
             hb = self.handler_bound if self.handler_bound is not None else {}
             b = hb.get(fn.usr)
-            for p in fn.params:
-                if p['name'] == 'bytes_transferred' and b is not None and b != INF:
-                    piv['bytes_transferred'] = (0, b)
+            p = q.completion_count_param(fn)
+            if p is not None and b is not None and b != INF:
+                piv[p['name']] = (0, b)
             self.busy.discard(k)
         call_iv = {}
         ai = intervals.AI(self.fx, fn, piv, self.arrays, call_iv)
@@ -140,9 +140,9 @@ def check(run):
             return cx.ai[k]
         piv = {}
         b = cx.handler_bound.get(fn.usr)
-        for p in fn.params:
-            if p['name'] == 'bytes_transferred' and b is not None and b != INF:
-                piv['bytes_transferred'] = (0, b)
+        p = q.completion_count_param(fn)
+        if p is not None and b is not None and b != INF:
+            piv[p['name']] = (0, b)
         ai = intervals.AI(fx, fn, piv, cx.arrays, dict(summaries))
         cx.ai[k] = ai
         return ai
